@@ -240,19 +240,19 @@ def match_known(h, known):
 
 
 def select(prop, tier, seed, only=None):
-    hs = [h for h in spec.by_prop(prop) if tier == 'thorough' or h.tier == 'quick']
+    """quick tier = every quick harness + VERIF_SEED-chosen members of the seeded thorough families (each still decided for
+    all of its inputs by the solver; the seed only picks WHICH extra instantiations / radices are queried)"""
+    allh = spec.by_prop(prop)
+    hs = [h for h in allh if tier == 'thorough' or h.tier == 'quick']
     if tier == 'quick':
-        fam = [h for h in hs if h.seeded]
-        if fam:
-            rnd = random.Random(seed)
-            groups = {}
-            for h in fam:
-                groups.setdefault(h.macro, []).append(h)
-            keep = set()
-            for g in groups.values():
-                k = max(1, len(g) // 4)
-                keep |= {x.name for x in rnd.sample(g, k)}
-            hs = [h for h in hs if not h.seeded or h.name in keep]
+        fam = {}
+        for h in allh:
+            if h.seeded and h.tier == 'thorough':
+                fam.setdefault(h.macro, []).append(h)
+        rnd = random.Random(seed * 7919 + sum(ord(c) for c in prop))
+        for macro in sorted(fam):
+            g = sorted(fam[macro], key=lambda x: x.name)
+            hs += rnd.sample(g, min(spec.SEEDED_EXTRA.get(prop, 2), len(g)))
     if only:
         hs = [h for h in hs if re.search(only, h.name)]
     return hs
@@ -361,7 +361,7 @@ def main(argv=None):
             log(f"UNDECIDED harness={h.name} mode={h.mode} reason={j.state}: {j.detail[:300]}")
             # only the calibrated quick-tier set can fail the run: a thorough-only harness that does not finish (or whose
             # witness is not met) is reported and left out of `discharged`, never counted as held
-            if h.tier == 'quick' and (h.core or j.state == 'vacuous'):
+            if h.tier == 'quick' and not h.seeded and (h.core or j.state == 'vacuous'):
                 machinery.append((j, j.detail))
 
     seen = {}
